@@ -59,6 +59,8 @@ pub struct Rig {
     pub n_links: usize,
     buf: Vec<u8>,
     pub settle_rounds: u64,
+    /// the same count, visible to the watchdog
+    pub progress: Arc<std::sync::atomic::AtomicU64>,
     pub config: DynamicConfig,
     pub stats: SharedStats,
     pub hub: SubscriptionHub,
@@ -125,6 +127,7 @@ impl Rig {
     pub async fn settle(&mut self, out: &mut StepOut) -> Result<(), String> {
         for _round in 0..64 {
             self.settle_rounds += 1;
+            self.progress.fetch_add(1, std::sync::atomic::Ordering::Relaxed);
             self.sentinel()?;
             for _ in 0..YIELDS {
                 tokio::task::yield_now().await;
@@ -166,6 +169,18 @@ impl Rig {
 }
 
 impl Rig {
+    /// Several datagrams from the receiver to `link`, back to back (they reach the reader task in one batch).
+    pub async fn uplink_send_many(&mut self, link: usize, datagrams: &[Vec<u8>]) -> Result<StepOut, String> {
+        let mut out = StepOut::default();
+        if let Some(dst) = self.link_src.get(&link).copied() {
+            for d in datagrams {
+                let _ = self.rx.send_to(d, dst);
+            }
+        }
+        self.settle(&mut out).await?;
+        Ok(out)
+    }
+
     /// Replace the content of the ips file the sender re-reads on SIGHUP.
     pub fn write_ips(&self, text: &str) -> Result<(), String> {
         std::fs::write(&self.ips_path, text).map_err(|e| format!("write ips file: {e}"))
@@ -217,6 +232,7 @@ where
     let ips_arg = ips_path.to_str().unwrap().to_string();
     let stats = SharedStats::new();
     let hub = SubscriptionHub::new();
+    let progress = Arc::new(std::sync::atomic::AtomicU64::new(0));
     let rig = Rig {
         rx,
         rx_addr,
@@ -231,6 +247,7 @@ where
         n_links,
         buf: vec![0u8; 4096],
         settle_rounds: 0,
+        progress: progress.clone(),
         config: config.clone(),
         stats: stats.clone(),
         hub: hub.clone(),
@@ -239,11 +256,37 @@ where
     srtla_core::utils::verif_clock::set(T0);
     let r = rt.block_on(async move {
         let sender = run_sender_with_config(local_port, "127.0.0.1", rx_addr.port(), &ips_arg, config, stats, CriticalWindow::new(), hub, binder);
-        tokio::select! {
+        // Watchdog in virtual time. If every task (the loop and the driver) is blocked for good, the paused
+        // clock jumps from one heartbeat to the next; two heartbeats without a settling round in between end
+        // the run instead of letting it hang. (While the driver works the runtime is never idle, so the clock
+        // does not auto-advance and the heartbeat is just one more timer that is never due.)
+        let (blocked_tx, mut blocked_rx) = tokio::sync::mpsc::channel::<()>(1);
+        let beat = tokio::spawn(async move {
+            let mut last = progress.load(std::sync::atomic::Ordering::Relaxed);
+            let mut idle = 0;
+            loop {
+                tokio::time::sleep(Duration::from_secs(600)).await;
+                let p = progress.load(std::sync::atomic::Ordering::Relaxed);
+                if p == last {
+                    idle += 1;
+                    if idle >= 2 {
+                        let _ = blocked_tx.send(()).await;
+                        return;
+                    }
+                } else {
+                    idle = 0;
+                    last = p;
+                }
+            }
+        });
+        let r = tokio::select! {
             biased;
             r = script(rig) => r,
+            _ = blocked_rx.recv() => Err("BLOCKED: the event loop and the driver are both blocked for good (a hub operation the driver awaits never completes)".to_string()),
             r = sender => Err(format!("the sender loop ended by itself: {:?}", r.err().map(|e| e.to_string()))),
-        }
+        };
+        beat.abort();
+        r
     });
     srtla_core::utils::verif_clock::clear();
     drop(rt);
